@@ -420,12 +420,23 @@ func (ie IfExpression) printElse(out *PrintState) {
 	} else {
 		out.Print(" else ")
 	}
-	if len(ie.Alternative.Statements) == 1 && ie.Alternative.Statements[0].Value().Type() == token.IF {
+	stmts := ie.Alternative.Statements
+	if out.Compact {
+		// Comments are not printed in compact mode: else { /* c */ if b {} } is an else if too
+		// (otherwise compacting the compact form again gives a different text).
+		stmts = make([]Node, 0, len(ie.Alternative.Statements))
+		for _, s := range ie.Alternative.Statements {
+			if !isComment(s) {
+				stmts = append(stmts, s)
+			}
+		}
+	}
+	if len(stmts) == 1 && stmts[0].Value().Type() == token.IF {
 		// else if
 		if out.Compact {
 			out.Print(" ")
 		}
-		ie.Alternative.Statements[0].PrettyPrint(out)
+		stmts[0].PrettyPrint(out)
 		return
 	}
 	ie.Alternative.PrettyPrint(out)
